@@ -29,7 +29,16 @@ RULE = (
     "graph: every labelled simple graph on v vertices (all 2^(v(v-1)/2) edge sets), two bond-list encodings each; "
     "non-trivial when it has >= 1 bond and (>= 2 components or a cycle). "
     "ladder: fixed shapes x fixed sizes x 4 entry points, each in a forked child with an 8 MiB stack; "
-    "non-trivial always (>= 1000 atoms, 4+ components). No case is generated twice."
+    "non-trivial always (>= 1000 atoms, 4+ components). "
+    "dimension families (fixed palette, both tiers): flav = every pattern with L <= 2 (24 letters) and L = 3 over "
+    "the 6-letter chain x res_id sub-alphabet through every listed index / data / spread-input / result / res_id-dtype / "
+    "container flavour, argument-unchanged and result-not-aliased checks; reuse = every L = 2 pattern x position x "
+    "one-field change, applied in place to a structure that was queried (and refused) before; many = 3 segment "
+    "generators x segment counts 9..1000; gflav = every graph on <= 5 vertices through every bond-array / root / "
+    "container flavour and after refused calls; gedit = every graph on <= 5 vertices x every single-bond toggle and "
+    "remove_bonds_to on a queried bond list, v <= 4 also every boolean-mask selection; gmany = interleaved molecules "
+    "(counts 9..257) and star degrees straddling 16/32/64/128/256. flav cases are non-trivial for L >= 2, gflav with "
+    ">= 1 bond, gedit with >= 2 atoms, the others always. No case is generated twice."
 )
 ASSUMPTIONS = [
     "reducing functions (np.sum, np.mean, len, ...) are trusted; the oracle applies the same function to the "
@@ -44,6 +53,9 @@ ASSUMPTIONS = [
     "(get_all_bonds is n x max_degree) and many-component 'pairs' graphs to 10^4 atoms (get_molecule_indices is "
     "quadratic in the number of molecules; run time is not part of the statement)",
     "bonds of the sub-arrays yielded by molecule_iter / residue_iter are not compared (C01/C02 territory)",
+    "unspecified, observed on the unchanged tree and not demanded: segments yielded by residue_iter / chain_iter are "
+    "views sharing the annotation arrays of the parent; *_iter on an instance of a subclass yields the base class; "
+    "find_connected accepts float roots (truncated); functions given a structure without bonds / a wrong type raise",
 ]
 EXHAUSTIVE = True
 SHARD_TIMEOUT = {"quick": 600, "thorough": 1500}
@@ -93,6 +105,20 @@ def bounds(tier):
         "ladder_shapes": LADDER_SHAPES,
         "ladder_size_caps": SHAPE_MAX,
         "ladder_entry_points": LADDER_FUNCS,
+        "dimension_families": {
+            "flav": {"patterns": "L <= 2 over 24 letters, L = 3 over 6 letters (chain x res_id)", "index_flavours":
+                     INDEX_FLAVOURS, "res_id_dtypes": RES_DTYPES + ["int8 with wrapping differences"],
+                     "containers": ["strided read-only annotations set in reverse order + extra category",
+                                    "stack depth 0", "stack depth 1", "AtomArray subclass"],
+                     "apply_data": ["list", "float32", "object", "readonly", "fortran non-contiguous (n,3)"],
+                     "apply_results": ["0-d array", "empty array", "2-d array"],
+                     "spread_inputs": ["tuple", "strided", "readonly", "fortran (k,2)"]},
+            "reuse": "L = 2, 576 patterns x 2 positions x 5 one-field changes; every 8th as depth-2 stack",
+            "many": {"modes": MANY_MODES, "segment_counts": MANY_K},
+            "gflav": {"max_vertices": 5, "bond_arrays": BOND_ARRAY_FLAVOURS, "roots": ROOT_FLAVOURS},
+            "gedit": "v <= 5: every single-bond toggle, remove_bonds_to(every atom); v <= 4: every boolean mask",
+            "gmany": {"molecule_counts": MANY_K[:-1], "star_degrees": DEGREES},
+        },
     }
 
 
@@ -727,6 +753,583 @@ def _in_sorted(lst, x):
 
 
 # ---------------------------------------------------------------------------
+# dimension families (audit): flavours, reuse, many items, graph flavours / edits
+# ---------------------------------------------------------------------------
+FLAV_PAL = {"chain": ("A", "B"), "res": (5, 7, 3), "ins": ("", "A"), "name": ("X", "Y")}
+MANY_K = [9, 10, 11, 99, 100, 101, 255, 256, 257, 1000]
+DEGREES = list(range(1, 18)) + [31, 32, 33, 63, 64, 65, 127, 128, 129, 255, 256, 257]
+
+
+def expect(ctx, case, func, cls, exp, thunk, conv=nd):
+    """ACCEPT: conv(thunk()) must equal exp.  Returns True when it does."""
+    ctx.count("calls")
+    try:
+        got = conv(thunk())
+    except CaseTimeout:
+        raise
+    except Exception as e:  # noqa: BLE001
+        ctx.violation("%s|raised_%s|%s" % (func, type(e).__name__, cls),
+                      "%s raised %s: %s" % (func, type(e).__name__, str(e)[:120]), case, expected=exp,
+                      observed=type(e).__name__)
+        return False
+    if got != exp:
+        ctx.violation("%s|wrong_value|%s" % (func, cls), "%s disagrees with per-atom recomputation" % func, case,
+                      expected=exp, observed=got)
+        return False
+    return True
+
+
+def check_views(ctx, case, arr, rows, cls, tags, views=("starts", "count", "names", "index", "iter", "apply", "spread")):
+    """Core residue / chain views of one structure against the per-atom model (any size)."""
+    global _F
+    if _F is None:
+        _F = _funcs()
+    n = len(rows)
+    rs, cs = model_starts(rows)
+    for kind, starts in (("residue", rs), ("chain", cs)):
+        F = _F[kind]
+        nseg = len(starts)
+        seg_of = model_seg_of(starts, n)
+        fn = "get_%s_" % kind
+        if "starts" in views:
+            expect(ctx, case, fn + "starts", cls, ((nseg,), starts), lambda: F["starts"](arr))
+        if "starts" in views or "starts_stop" in views:
+            expect(ctx, case, fn + "starts(add_exclusive_stop)", cls, ((nseg + 1,), starts + [n]),
+                   lambda: F["starts"](arr, add_exclusive_stop=True))
+        if "count" in views:
+            expect(ctx, case, fn + "count", cls, nseg, lambda: F["count"](arr), conv=int)
+        if "names" in views:
+            if kind == "residue":
+                expect(ctx, case, "get_residues", cls,
+                       [((nseg,), [rows[s][1] for s in starts]), ((nseg,), [rows[s][3] for s in starts])],
+                       lambda: F["names"](arr), conv=lambda t: [nd(t[0]), nd(t[1])])
+            else:
+                expect(ctx, case, "get_chains", cls, ((nseg,), [rows[s][0] for s in starts]), lambda: F["names"](arr))
+        if "index" in views:
+            ident = np.arange(n - 1, -1, -1, dtype=np.int64)
+            il = ident.tolist()
+            expect(ctx, case, fn + "positions", cls, ((n,), [seg_of[i] for i in il]), lambda: F["positions"](arr, ident))
+            expect(ctx, case, fn + "starts_for", cls, ((n,), [starts[seg_of[i]] for i in il]),
+                   lambda: F["starts_for"](arr, ident))
+            mi = il if n <= 64 else sorted(set(list(range(0, n, 37)) + [n - 1]))
+            expect(ctx, case, fn + "masks", cls, ((len(mi), n), [[seg_of[j] == seg_of[i] for j in range(n)] for i in mi]),
+                   lambda: _bool_only(F["masks"](arr, np.array(mi, dtype=np.int64))))
+        if "iter" in views:
+            members = [[] for _ in range(nseg)]
+            for i in range(n):
+                members[seg_of[i]].append(tags[i])
+
+            def it():
+                out = []
+                for s in F["iter"](arr):
+                    if not isinstance(arr, type(s)):  # the class of arr or (for a subclass instance) a base class
+                        raise TypeError("%s_iter yielded %s for %s" % (kind, type(s).__name__, type(arr).__name__))
+                    if s.coord.shape[:-2] != arr.coord.shape[:-2]:
+                        raise TypeError("segment coord shape %r" % (s.coord.shape,))
+                    out.append(s.atom_name.tolist())
+                return out
+
+            expect(ctx, case, kind + "_iter", cls, members, it, conv=lambda x: x)
+        if "apply" in views and n:
+            data = np.arange(n, dtype=np.int64) * 3 + 1
+            sums = [0] * nseg
+            for i in range(n):
+                sums[seg_of[i]] += 3 * i + 1
+            expect(ctx, case, "apply_%s_wise" % kind, cls, ((nseg,), sums), lambda: F["apply"](arr, data, np.sum))
+        if "spread" in views:
+            inp = list(range(100, 100 + nseg))
+            expect(ctx, case, "spread_%s_wise" % kind, cls, ((n,), [100 + k for k in seg_of]),
+                   lambda: F["spread"](arr, inp))
+    return rs, cs
+
+
+def _tags(n):
+    return ["a%d" % i for i in range(n)]
+
+
+def fill_atoms(arr, rows, order=("chain_id", "res_id", "ins_code", "res_name", "atom_name"), res_dtype=None,
+               strided=False):
+    """Set the annotations of an existing AtomArray / AtomArrayStack (any subclass) from rows."""
+    n = len(rows)
+    cols = {
+        "chain_id": np.array([r[0] for r in rows], dtype="U4"),
+        "res_id": np.array([r[1] for r in rows], dtype=res_dtype or np.int64),
+        "ins_code": np.array([r[2] for r in rows], dtype="U1"),
+        "res_name": np.array([r[3] for r in rows], dtype="U5"),
+        "atom_name": np.array(_tags(n), dtype="U6"),
+    }
+    for name in order:
+        col = cols[name]
+        if strided:
+            big = np.zeros(2 * n + 1, dtype=col.dtype)
+            big[1::2] = col
+            col = big[1::2]
+            col.setflags(write=False)
+        if name == "res_id" and res_dtype is not None:
+            arr.del_annotation("res_id")
+        arr.set_annotation(name, col)
+    return arr
+
+
+RES_DTYPES = ["int8", "int16", "int32", "uint8", "uint16", "uint32", "uint64", "float64"]
+INDEX_FLAVOURS = ["list", "tuple", "int8", "int32", "uint8", "uint64", "strided", "readonly"]
+
+
+def _index_flavour(name, ixl):
+    if name == "list":
+        return list(ixl)
+    if name == "tuple":
+        return tuple(ixl)
+    if name == "strided":
+        big = np.zeros(2 * len(ixl) + 1, dtype=np.int64)
+        big[1::2] = ixl
+        return big[1::2]
+    if name == "readonly":
+        a = np.array(ixl, dtype=np.int64)
+        a.setflags(write=False)
+        return a
+    return np.array(ixl, dtype=name)
+
+
+def _res_0d(seg):
+    return np.array(seg.sum())
+
+
+def _res_empty(seg):
+    return np.zeros(0)
+
+
+def _res_2d(seg):
+    return np.array([[seg.min(), 1], [2, seg.max()]])
+
+
+def check_flavours(ctx, case, rows):
+    """One annotation pattern through every array / container flavour."""
+    global _F
+    if _F is None:
+        _F = _funcs()
+    from biotite.structure import AtomArray, AtomArrayStack
+
+    class SubArray(AtomArray):
+        pass
+
+    n = len(rows)
+    tags = _tags(n)
+    rs, cs = model_starts(rows)
+    base = fill_atoms(AtomArray(n), rows)
+    # ---- index array flavours; the argument must stay untouched -------------------------------
+    ixl = list(range(n - 1, -1, -1)) + list(range(n))
+    for kind, starts in (("residue", rs), ("chain", cs)):
+        F = _F[kind]
+        seg_of = model_seg_of(starts, n)
+        fn = "get_%s_" % kind
+        for fl in INDEX_FLAVOURS:
+            ix = _index_flavour(fl, ixl)
+            c = "index_" + fl
+            expect(ctx, case, fn + "masks", c, ((2 * n, n), [[seg_of[j] == seg_of[i] for j in range(n)] for i in ixl]),
+                   lambda: _bool_only(F["masks"](base, ix)))
+            expect(ctx, case, fn + "starts_for", c, ((2 * n,), [starts[seg_of[i]] for i in ixl]),
+                   lambda: F["starts_for"](base, ix))
+            expect(ctx, case, fn + "positions", c, ((2 * n,), [seg_of[i] for i in ixl]), lambda: F["positions"](base, ix))
+            if list(ix) != ixl:
+                ctx.violation(fn + "index_views|argument_mutated|" + c, "index argument changed by a view", case,
+                              expected=ixl, observed=list(ix))
+    # ---- structure flavours ---------------------------------------------------------------------
+    variants = [
+        ("strided_readonly_reordered", lambda: fill_atoms(_with_extra(AtomArray(n)), rows,
+                                                           order=("atom_name", "res_name", "ins_code", "res_id",
+                                                                  "chain_id"), strided=True)),
+        ("stack_depth0", lambda: fill_atoms(AtomArrayStack(0, n), rows)),
+        ("stack_depth1", lambda: fill_atoms(AtomArrayStack(1, n), rows)),
+        ("subclass", lambda: fill_atoms(SubArray(n), rows)),
+    ]
+    for vname, make in variants:
+        check_views(ctx, case, make(), rows, "structure_" + vname, tags)
+    for dt in RES_DTYPES:
+        arr = fill_atoms(AtomArray(n), rows, res_dtype=dt)
+        ucls = "res_id_unsigned" if dt.startswith("u") else "res_id_" + dt
+        check_views(ctx, case, arr, rows, ucls, tags, views=("starts_stop",))
+    # narrow signed type whose differences do not fit the type
+    wrap = {5: 100, 7: 120, 3: -100}
+    wrows = [(r[0], wrap[r[1]], r[2], r[3]) for r in rows]
+    check_views(ctx, case, fill_atoms(AtomArray(n), wrows, res_dtype="int8"), wrows, "res_id_int8_wraparound", tags,
+                views=("starts_stop",))
+    # ---- data flavours for apply, result flavours -----------------------------------------------
+    if n:
+        ints = INTS[:n]
+        for kind, starts in (("residue", rs), ("chain", cs)):
+            F = _F[kind]
+            nseg = len(starts)
+            seg_of = model_seg_of(starts, n)
+            mem = [[i for i in range(n) if seg_of[i] == k] for k in range(nseg)]
+            sums = [sum(ints[i] for i in m) for m in mem]
+            ap = "apply_%s_wise" % kind
+            for dname, data in (("list", list(ints)), ("float32", np.array(ints, dtype=np.float32)),
+                                ("object", np.array(ints, dtype=object)), ("readonly", _ro(np.array(ints)))):
+                keep = list(data)
+                expect(ctx, case, ap, "data_" + dname, ((nseg,), sums), lambda: F["apply"](base, data, np.sum))
+                if list(data) != keep:
+                    ctx.violation(ap + "|argument_mutated|data_" + dname, "data changed by apply", case, keep, list(data))
+            big = np.asfortranarray(np.zeros((n, 6)))
+            big[:, ::2] = np.array(COORD[:n]).reshape(n, 3)
+            fdata = big[:, ::2]
+            expect(ctx, case, ap, "data_fortran_view",
+                   ((nseg, 3), [[sum(COORD[i][c] for i in m) for c in range(3)] for m in mem]),
+                   lambda: F["apply"](base, fdata, np.sum, axis=0))
+            arr_i = np.array(ints, dtype=np.int64)
+            expect(ctx, case, ap, "result_0d_array", ((nseg,), sums), lambda: F["apply"](base, arr_i, _res_0d))
+            expect(ctx, case, ap, "result_empty_array", ((nseg, 0), [[] for _ in mem]),
+                   lambda: F["apply"](base, arr_i, _res_empty))
+            expect(ctx, case, ap, "result_2d_array",
+                   ((nseg, 2, 2), [[[min(ints[i] for i in m), 1], [2, max(ints[i] for i in m)]] for m in mem]),
+                   lambda: F["apply"](base, arr_i, _res_2d))
+    # ---- spread flavours, result must not alias the input ---------------------------------------
+    for kind, starts in (("residue", rs), ("chain", cs)):
+        F = _F[kind]
+        nseg = len(starts)
+        seg_of = model_seg_of(starts, n)
+        sp = "spread_%s_wise" % kind
+        vals = [7 * k + 3 for k in range(nseg)]
+        exp = ((n,), [vals[k] for k in seg_of])
+        big = np.zeros(2 * nseg + 1, dtype=np.int64)
+        big[1::2] = vals
+        two = np.asfortranarray(np.array([[k, -k] for k in range(nseg)], dtype=np.int64).reshape(nseg, 2))
+        for sname, inp, e in (("tuple", tuple(vals), exp), ("strided", big[1::2], exp),
+                              ("readonly", _ro(np.array(vals, dtype=np.int64)), exp),
+                              ("fortran_2d", two, ((n, 2), [[k, -k] for k in seg_of]))):
+            expect(ctx, case, sp, "input_" + sname, e, lambda: F["spread"](base, inp))
+        src = np.array(vals, dtype=np.int64)
+        try:
+            out = F["spread"](base, src)
+            if isinstance(out, np.ndarray) and out.flags.writeable:
+                out[...] = -12345
+            if src.tolist() != vals:
+                ctx.violation(sp + "|result_aliases_input|nonempty", "writing to the spread result changed the input",
+                              case, expected=vals, observed=src.tolist())
+        except Exception:  # noqa: BLE001
+            pass  # already reported by the flavour calls above
+    # ---- scribbling on returned arrays must not influence later queries --------------------------
+    for kind in ("residue", "chain"):
+        F = _F[kind]
+        ident = np.arange(n, dtype=np.int64)
+        try:
+            got = [F["starts"](base), F["starts"](base, add_exclusive_stop=True), F["masks"](base, ident),
+                   F["starts_for"](base, ident), F["positions"](base, ident)]
+            nm = F["names"](base)
+            got += list(nm) if isinstance(nm, tuple) else [nm]
+            for g in got:
+                if isinstance(g, np.ndarray) and g.flags.writeable and g.size:
+                    g[...] = g.flat[0].__class__(1) if g.dtype.kind != "U" else "?"
+        except Exception:  # noqa: BLE001
+            pass
+    check_views(ctx, case, base, rows, "after_results_overwritten", tags)
+    ctx.count("accepted", 1)
+    return rs, cs
+
+
+def _ro(a):
+    a.setflags(write=False)
+    return a
+
+
+def _with_extra(arr):
+    arr.set_annotation("b_factor", np.arange(arr.array_length(), dtype=float))
+    return arr
+
+
+# ---- reuse: the same structure queried, edited in place, queried again ------------------------------
+def letter_neighbours(d):
+    """Letters differing from d in exactly one field."""
+    c, r, i, m = d // 12, (d // 4) % 3, (d // 2) % 2, d % 2
+    out = [(1 - c) * 12 + r * 4 + i * 2 + m]
+    out += [c * 12 + r2 * 4 + i * 2 + m for r2 in range(3) if r2 != r]
+    out += [c * 12 + r * 4 + (1 - i) * 2 + m, c * 12 + r * 4 + i * 2 + (1 - m)]
+    return out
+
+
+def check_reuse(ctx, case, digs, pos, new_letter, as_stack):
+    rows = rows_of(digs, FLAV_PAL)
+    n = len(rows)
+    tags = _tags(n)
+    from biotite.structure import AtomArray, AtomArrayStack
+
+    arr = fill_atoms(AtomArrayStack(2, n) if as_stack else AtomArray(n), rows)
+    views = ("starts", "count", "names", "index", "spread")
+    check_views(ctx, case, arr, rows, "first_query", tags, views=views)
+    # a refused query in between must not leave anything behind either
+    for f in (_F["residue"]["positions"], _F["chain"]["masks"]):
+        try:
+            f(arr, np.array([n], dtype=np.int64))
+        except Exception:  # noqa: BLE001
+            pass
+    nr = rows_of([new_letter], FLAV_PAL)[0]
+    arr.chain_id[pos] = nr[0]
+    arr.res_id[pos] = nr[1]
+    arr.ins_code[pos] = nr[2]
+    arr.res_name[pos] = nr[3]
+    rows2 = list(rows)
+    rows2[pos] = nr
+    check_views(ctx, case, arr, rows2, "after_inplace_edit", tags, views=views)
+    # and replaced as a whole (set_annotation)
+    arr.res_id = np.array([r[1] for r in rows], dtype=np.int64)
+    arr.chain_id = np.array([r[0] for r in rows], dtype="U4")
+    rows3 = [(rows[k][0], rows[k][1], rows2[k][2], rows2[k][3]) for k in range(n)]
+    check_views(ctx, case, arr, rows3, "after_annotation_replaced", tags, views=("starts", "index"))
+    return model_starts(rows2)
+
+
+# ---- many segments ---------------------------------------------------------------------------------
+def many_rows(mode, k):
+    rows = []
+    for s in range(k):
+        ln = 1 + s % 3
+        if mode == "residues_one_chain":
+            r = ("A", s + 1, "", "X")
+        elif mode == "chains_by_id":
+            r = ("c%d" % s, 1, "", "X")
+        elif mode == "chains_by_decrease":
+            r = ("A", 2 * k - 2 * s + (s % 2), "", "X")
+        else:
+            raise ValueError(mode)
+        rows += [r] * ln
+    return rows
+
+
+MANY_MODES = ["residues_one_chain", "chains_by_id", "chains_by_decrease"]
+
+
+def check_many(ctx, case):
+    from biotite.structure import AtomArray
+
+    rows = many_rows(case["mode"], case["k"])
+    arr = fill_atoms(AtomArray(len(rows)), rows)
+    return check_views(ctx, case, arr, rows, "many_segments", _tags(len(rows)))
+
+
+# ---- graph flavours ----------------------------------------------------------------------------------
+def mol_expect(ctx, case, tgt, exp_sets, cls, with_iter=None):
+    import biotite.structure as struc
+
+    def sets(lst):
+        out = []
+        for x in lst:
+            t = [int(i) for i in np.asarray(x).tolist()]
+            if len(set(t)) != len(t):
+                raise ValueError("duplicate atom in molecule %r" % (t,))
+            out.append(tuple(sorted(t)))
+        return sorted(out)
+
+    v = tgt.get_atom_count() if hasattr(tgt, "get_atom_count") else tgt.array_length()
+    expect(ctx, case, "get_molecule_indices", cls, exp_sets, lambda: struc.get_molecule_indices(tgt), conv=sets)
+
+    def masks():
+        m = struc.get_molecule_masks(tgt)
+        if m.dtype != bool or m.ndim != 2 or m.shape[1] != v:
+            raise TypeError("mask array has dtype %s shape %s" % (m.dtype, m.shape))
+        return sorted(tuple(int(i) for i in np.where(row)[0]) for row in m)
+
+    expect(ctx, case, "get_molecule_masks", cls, exp_sets, masks, conv=lambda x: x)
+    if with_iter is not None:
+        def it():
+            out = []
+            for mol in struc.molecule_iter(tgt):
+                if type(mol) is not type(tgt) and not with_iter:
+                    raise TypeError("molecule_iter yielded %s" % type(mol).__name__)
+                out.append(tuple(sorted(int(x[1:]) for x in mol.atom_name.tolist())))
+            return sorted(out)
+
+        expect(ctx, case, "molecule_iter", cls, exp_sets, it, conv=lambda x: x)
+
+
+BOND_ARRAY_FLAVOURS = ["uint8", "int32", "uint32", "int64_k3_fortran", "strided", "redundant_rows", "readonly"]
+ROOT_FLAVOURS = ["int64", "int32", "uint8", "uint64", "zero_d_array"]
+
+
+def check_graph_flavours(ctx, case, v, bits):
+    import biotite.structure as struc
+    from biotite.structure import AtomArray, AtomArrayStack, BondList
+
+    class SubBonds(BondList):
+        pass
+
+    class SubAtoms(AtomArray):
+        pass
+
+    edges = [p for k, p in enumerate(pairs_of(v)) if bits >> k & 1]
+    comps = components(v, edges)
+    exp_sets = sorted(tuple(c) for c in comps)
+    comp_of = {i: c for c in comps for i in c}
+    e2 = np.array(edges, dtype=np.int64).reshape(len(edges), 2)
+    for fl in BOND_ARRAY_FLAVOURS:
+        if fl in ("uint8", "int32", "uint32"):
+            src = e2.astype(fl)
+        elif fl == "int64_k3_fortran":
+            src = np.asfortranarray(np.concatenate([e2, np.ones((len(edges), 1), dtype=np.int64)], axis=1))
+        elif fl == "strided":
+            big = np.full((2 * len(edges) + 1, 2), 0, dtype=np.int64)
+            big[1::2] = e2
+            src = big[1::2]
+        elif fl == "redundant_rows":
+            src = np.concatenate([e2, e2[::-1, ::-1], e2[:1]])
+        else:
+            src = e2.copy()
+            src.setflags(write=False)
+        keep = src.tolist()
+        try:
+            bl = BondList(v, src)
+        except Exception as e:  # noqa: BLE001
+            ctx.violation("BondList|raised_%s|bond_array_%s" % (type(e).__name__, fl), "legal bond array refused",
+                          case, expected="bond list", observed=str(e)[:200])
+            continue
+        mol_expect(ctx, case, bl, exp_sets, "bond_array_" + fl)
+        if src.tolist() != keep:
+            ctx.violation("BondList|argument_mutated|bond_array_" + fl, "bond array changed", case, keep, src.tolist())
+        if src.flags.writeable and src.size:
+            src[...] = 0  # later change of the source must not reach the bond list
+            mol_expect(ctx, case, bl, exp_sets, "bond_array_%s_source_overwritten" % fl)
+    bl = build_bonds(v, edges, 0)
+    # roots of every integer flavour
+    for fl in ROOT_FLAVOURS:
+        for root in range(v):
+            r = np.array(root) if fl == "zero_d_array" else np.dtype(fl).type(root)
+            expect(ctx, case, "find_connected", "root_" + fl, comp_of[root],
+                   lambda: struc.find_connected(bl, r), conv=lambda x: sorted(int(i) for i in np.asarray(x).tolist()))
+    # containers: subclasses, stacks of depth 0 / 1
+    sb = SubBonds(v, e2) if edges else SubBonds(v)
+    mol_expect(ctx, case, sb, exp_sets, "bondlist_subclass")
+    for cname, make in (("atoms_subclass", lambda: SubAtoms(v)), ("stack_depth0", lambda: AtomArrayStack(0, v)),
+                        ("stack_depth1", lambda: AtomArrayStack(1, v))):
+        at = make()
+        at.atom_name = np.array(_tags(v), dtype="U6")
+        at.bonds = bl.copy()
+        mol_expect(ctx, case, at, exp_sets, cname, with_iter=(cname == "atoms_subclass"))
+    # results handed out are not internal state
+    try:
+        outs = list(struc.get_molecule_indices(bl)) + [struc.get_molecule_masks(bl)]
+        if v:
+            outs.append(struc.find_connected(bl, 0))
+            outs.append(np.asarray(struc.find_connected(bl, 0, as_mask=True)))
+        for o in outs:
+            if isinstance(o, np.ndarray) and o.flags.writeable and o.size:
+                o[...] = 0
+    except Exception:  # noqa: BLE001
+        pass
+    mol_expect(ctx, case, bl, exp_sets, "after_results_overwritten")
+    # error paths: refused calls leave nothing behind
+    at = AtomArray(v)
+    at.atom_name = np.array(_tags(v), dtype="U6")
+    for bad in (at, [0, 1], None):
+        ctx.count("unspecified")
+        for f in (struc.get_molecule_indices, struc.get_molecule_masks, lambda x: list(struc.molecule_iter(x))):
+            try:
+                f(bad)
+            except Exception:  # noqa: BLE001
+                pass
+    for root in oor_roots(v):
+        try:
+            struc.find_connected(bl, root)
+        except Exception:  # noqa: BLE001
+            pass
+    if at.bonds is not None:
+        ctx.violation("molecules|argument_mutated|structure_without_bonds", "a refused call attached bonds", case,
+                      None, repr(at.bonds))
+    at.bonds = bl
+    mol_expect(ctx, case, at, exp_sets, "after_refused_calls", with_iter=False)
+    if sorted(map(tuple, bl.as_array()[:, :2].tolist())) != sorted(edges) or bl.get_atom_count() != v:
+        ctx.violation("molecules|input_mutated|bonded", "bond list changed by a query", case, edges,
+                      bl.as_array().tolist())
+    return exp_sets, bool(edges)
+
+
+# ---- graph edits: query, edit the same bond list / structure, query again ------------------------------
+def check_graph_edits(ctx, case, v, bits, selections=True):
+    from biotite.structure import AtomArray
+
+    allp = pairs_of(v)
+    edges = [p for k, p in enumerate(allp) if bits >> k & 1]
+    exp0 = sorted(tuple(c) for c in components(v, edges))
+    n_cases = 0
+    # every single-bond toggle on a queried object
+    for k, p in enumerate(allp):
+        bl = build_bonds(v, edges, k % 2)
+        at = AtomArray(v)
+        at.atom_name = np.array(_tags(v), dtype="U6")
+        at.bonds = bl
+        mol_expect(ctx, case, at, exp0, "first_query", with_iter=False)
+        if p in edges:
+            bl.remove_bond(p[1], p[0])
+            e2 = [q for q in edges if q != p]
+            cls = "after_remove_bond"
+        else:
+            bl.add_bond(p[1], p[0], 2)
+            e2 = edges + [p]
+            cls = "after_add_bond"
+        exp = sorted(tuple(c) for c in components(v, e2))
+        mol_expect(ctx, case, bl, exp, cls)
+        mol_expect(ctx, case, at, exp, cls, with_iter=False)
+        n_cases += 1
+    # all bonds of one atom removed
+    for a in range(v):
+        bl = build_bonds(v, edges, 0)
+        mol_expect(ctx, case, bl, exp0, "first_query")
+        bl.remove_bonds_to(a)
+        e2 = [q for q in edges if a not in q]
+        mol_expect(ctx, case, bl, sorted(tuple(c) for c in components(v, e2)), "after_remove_bonds_to")
+        n_cases += 1
+    # every sub-structure selected by a boolean mask: molecules of the induced sub-graph
+    at = AtomArray(v)
+    at.atom_name = np.array(_tags(v), dtype="U6")
+    at.bonds = build_bonds(v, edges, 0)
+    for mbits in range(1 << v if selections else 0):
+        sel = [i for i in range(v) if mbits >> i & 1]
+        new = {old: k for k, old in enumerate(sel)}
+        e2 = [(new[a], new[b]) for a, b in edges if a in new and b in new]
+        exp = sorted(tuple(c) for c in components(len(sel), e2))
+        mask = np.array([bool(mbits >> i & 1) for i in range(v)], dtype=bool)
+        try:
+            sub = at[mask]
+            subb = at.bonds[mask]
+        except Exception as e:  # noqa: BLE001
+            ctx.violation("molecules|raised_%s|mask_selection" % type(e).__name__, "selection failed", case, None,
+                          str(e)[:200])
+            continue
+        mol_expect(ctx, case, subb, exp, "bondlist_mask_selection")
+        mol_expect(ctx, case, sub, exp, "atoms_mask_selection")
+        n_cases += 1
+    mol_expect(ctx, case, at, exp0, "after_selections", with_iter=False)
+    return exp0, n_cases
+
+
+# ---- many molecules / high degree -----------------------------------------------------------------------
+def check_many_molecules(ctx, case):
+    from biotite.structure import AtomArray, BondList
+
+    if case["mode"] == "interleaved_paths":
+        k = case["k"]
+        sizes = [1 + i % 3 for i in range(k)]
+        # atom j of molecule i sits at index i + j*k (molecules interleaved, none contiguous)
+        edges = []
+        for i in range(k):
+            for j in range(sizes[i] - 1):
+                edges.append((i + j * k, i + (j + 1) * k))
+        n = max(i + (sizes[i] - 1) * k for i in range(k)) + 1  # unused indices in between are single atoms
+    else:  # star of the given degree + one isolated atom + one pair
+        d = case["k"]
+        edges = [(0, c) for c in range(1, d + 1)]
+        n = d + 4
+        edges.append((d + 2, d + 3))
+    exp = sorted(tuple(c) for c in components(n, edges))
+    bl = BondList(n, np.array(edges[::-1], dtype=np.int64))
+    at = AtomArray(n)
+    at.atom_name = np.array(_tags(n), dtype="U6")
+    at.bonds = bl
+    mol_expect(ctx, case, bl, exp, "many_molecules" if case["mode"] == "interleaved_paths" else "high_degree")
+    mol_expect(ctx, case, at, exp, "many_molecules" if case["mode"] == "interleaved_paths" else "high_degree",
+               with_iter=False)
+    return exp
+
+
+# ---------------------------------------------------------------------------
 # shards
 # ---------------------------------------------------------------------------
 def seg_palettes(tier, seed):
@@ -766,6 +1369,7 @@ def shards(tier, seed):
     for k in range(16):
         out.append({"kind": "graph", "v": 6, "parts": 16, "part": k})
     out.append({"kind": "graph", "v": [0, 1, 2, 3, 4, 5], "parts": 1, "part": 0})
+    out += dim_shards()
     lad = []
     for shape in LADDER_SHAPES:
         for n in LADDER_SIZES[tier]:
@@ -781,6 +1385,27 @@ def shards(tier, seed):
     rest = out + small
     k = (seed * 7) % len(rest)
     return big + rest[k:] + rest[:k]
+
+
+SUB["chain_res"] = [d for d in range(NLET) if d % 4 == 0]
+
+
+def dim_shards():
+    """Dimension families (same at both tiers, seed independent)."""
+    out = [{"kind": "flav", "L": [0, 1], "sub": "all", "part": 0, "parts": 1},
+           {"kind": "flav", "L": [3], "sub": "chain_res", "part": 0, "parts": 1}]
+    for k in range(4):
+        out.append({"kind": "flav", "L": [2], "sub": "all", "part": k, "parts": 4})
+        out.append({"kind": "reuse", "part": k, "parts": 4})
+        out.append({"kind": "gflav", "v": [5], "part": k, "parts": 4})
+        out.append({"kind": "gedit", "v": [5], "part": k, "parts": 4, "selections": False})
+    for mode in MANY_MODES:
+        out.append({"kind": "many", "mode": mode})
+    out.append({"kind": "gflav", "v": [0, 1, 2, 3, 4], "part": 0, "parts": 1})
+    out.append({"kind": "gedit", "v": [0, 1, 2, 3, 4], "part": 0, "parts": 1, "selections": True})
+    out.append({"kind": "gmany", "mode": "interleaved_paths"})
+    out.append({"kind": "gmany", "mode": "star_degree"})
+    return out
 
 
 def stack_rule(tier, L, idx):
@@ -832,8 +1457,97 @@ def run_shard(shard, ctx):
             check_ladder(ctx, case)
             if shard["shape"] == "path" and shard["n"] == 100000 and func == "find_connected":
                 ctx.sample(case)
+    elif k in ("flav", "reuse", "many", "gflav", "gedit", "gmany"):
+        _arm()
+        run_dim(shard, ctx)
     else:
         raise ValueError(shard)
+
+
+def dim_cases(shard):
+    """Enumerates the JSON-able cases of one dimension shard."""
+    k = shard["kind"]
+    if k == "flav":
+        idx = 0
+        for L in shard["L"]:
+            for digs in itertools.product(SUB[shard["sub"]], repeat=L):
+                idx += 1
+                if idx % shard["parts"] == shard["part"]:
+                    yield {"kind": "flav", "digs": list(digs)}
+    elif k == "reuse":
+        idx = 0
+        for digs in itertools.product(range(NLET), repeat=2):
+            for pos in (0, 1):
+                for new in letter_neighbours(digs[pos]):
+                    idx += 1
+                    if idx % shard["parts"] == shard["part"]:
+                        yield {"kind": "reuse", "digs": list(digs), "pos": pos, "new": new, "stack": idx % 8 == 3}
+    elif k == "many":
+        for kk in MANY_K:
+            yield {"kind": "many", "mode": shard["mode"], "k": kk}
+    elif k in ("gflav", "gedit"):
+        for v in shard["v"]:
+            for bits in range(1 << (v * (v - 1) // 2)):
+                if bits % shard["parts"] == shard["part"]:
+                    c = {"kind": k, "v": v, "bits": bits}
+                    if k == "gedit":
+                        c["selections"] = shard["selections"]
+                    yield c
+    elif k == "gmany":
+        for kk in (MANY_K[:-1] if shard["mode"] == "interleaved_paths" else DEGREES):
+            yield {"kind": "gmany", "mode": shard["mode"], "k": kk}
+
+
+def run_dim_case(ctx, case):
+    """Returns (outcome, non-trivial)."""
+    k = case["kind"]
+    if k == "flav":
+        rows = rows_of(case["digs"], FLAV_PAL)
+        rs, cs = check_flavours(ctx, case, rows)
+        return (tuple(rs), tuple(cs)), len(rows) >= 2
+    if k == "reuse":
+        rs, cs = check_reuse(ctx, case, case["digs"], case["pos"], case["new"], case["stack"])
+        return (tuple(rs), tuple(cs)), True
+    if k == "many":
+        rs, cs = check_many(ctx, case)
+        return (len(rs), len(cs)), True
+    if k == "gflav":
+        exp, nt = check_graph_flavours(ctx, case, case["v"], case["bits"])
+        return tuple(exp), nt
+    if k == "gedit":
+        exp, n = check_graph_edits(ctx, case, case["v"], case["bits"], case["selections"])
+        return tuple(exp), case["v"] >= 2
+    if k == "gmany":
+        exp = check_many_molecules(ctx, case)
+        return len(exp), True
+    raise ValueError(case)
+
+
+def run_dim(shard, ctx):
+    timeouts = 0
+    for case in dim_cases(shard):
+        if not ctx.journal(case):
+            continue
+        try:
+            _timer(CASE_TIMEOUT)
+            outc, nt = run_dim_case(ctx, case)
+            _timer(0)
+        except CaseTimeout:
+            ctx.ev(1)
+            ctx.violation("%s|did_not_terminate|case" % case["kind"], "no result within %d s" % CASE_TIMEOUT, case,
+                          expected="a result", observed="timeout")
+            timeouts += 1
+            if timeouts >= MAX_TIMEOUTS_PER_SHARD:
+                ctx.note("C17: a %s shard was cut short after %d case time-outs" % (case["kind"], timeouts))
+                return
+            continue
+        finally:
+            _timer(0)
+        ctx.ev(1, 1 if nt else 0)
+        ctx.count("dim_" + case["kind"])
+        ctx.outcome((case["kind"], outc))
+        if nt and len(ctx.samples) < 1:
+            ctx.sample(case)
 
 
 def run_seg(shard, ctx):
@@ -964,6 +1678,8 @@ def crash_class(case):
             return "ladder|%s" % case.get("func")
         if k == "graph_canary":
             return "graph_canary"
+        if k in ("flav", "reuse", "many", "gflav", "gedit", "gmany"):
+            return k
     return "unclassified"
 
 
@@ -1001,5 +1717,14 @@ def replay(case, ctx):
                           expected="results", observed=list(r))
     elif k == "ladder":
         check_ladder(ctx, case)
+    elif k in ("flav", "reuse", "many", "gflav", "gedit", "gmany"):
+        _arm()
+        try:
+            _timer(CASE_TIMEOUT)
+            run_dim_case(ctx, case)
+        except CaseTimeout:
+            ctx.violation("%s|did_not_terminate|case" % k, "no result", case, expected="a result", observed="timeout")
+        finally:
+            _timer(0)
     else:
         raise ValueError(case)
